@@ -217,17 +217,22 @@ func (c *Ctx) loopOperatorRules() {
 	// for: the termination predicate on the first test
 	{
 		f := reg.op("systemdict", "for")
+		bits := uint(8 * c.pkg("postscript").TypesSizes.Sizeof(c.typeObj("postscript", "Integer").Type()))
+		minI := int64(-1) << (bits - 1)
+		maxI := -(minI + 1)
 		var bad []string
 		for _, t := range []struct {
 			init, inc, limit int64
 			runs             int
-		}{{1, 1, 3, 3}, {3, 1, 3, 1}, {4, 1, 3, 0}, {3, -1, 1, 3}, {1, -1, 1, 1}, {0, -1, 1, 0}, {1, 2, 2, 1}, {5, -3, 0, 2}} {
+		}{{1, 1, 3, 3}, {3, 1, 3, 1}, {4, 1, 3, 0}, {3, -1, 1, 3}, {1, -1, 1, 1}, {0, -1, 1, 0}, {1, 2, 2, 1}, {5, -3, 0, 2},
+			// the control variable must not wrap around at the ends of the integer range
+			{maxI - 1, 1, maxI, 2}, {minI + 1, -1, minI, 2}, {maxI - 1, 5, maxI, 1}} {
 			o := c.loopOperatorWith(f, []sv{keep, intV(t.init), intV(t.inc), intV(t.limit), proc}, nil, nil, []string{"nil", "nil", "nil", "nil", "exit"}, nil)
 			if len(o.runs) != t.runs || o.ret != "nil" {
 				bad = append(bad, fmt.Sprintf("%d %d %d {…} for runs its body %d time(s) (result %s %s), the PLRM prescribes %d", t.init, t.inc, t.limit, len(o.runs), o.ret, o.why, t.runs))
 			}
 		}
-		c.check(len(bad) == 0, "CTL-FORPRED", c.fname(f), "termination ≡ (inc>0 ∧ v>limit) ∨ (inc<0 ∧ v<limit); the control variable starts at initial and advances by increment", f.Pos(), "8 sign/order cells evaluated", "the termination test of `for` differs from the PLRM: "+joinMax(bad, 3))
+		c.check(len(bad) == 0, "CTL-FORPRED", c.fname(f), "termination ≡ (inc>0 ∧ v>limit) ∨ (inc<0 ∧ v<limit); the control variable starts at initial and advances by increment", f.Pos(), "11 sign/order/boundary cells evaluated", "the termination test of `for` differs from the PLRM: "+joinMax(bad, 3))
 	}
 	// repeat: trip count
 	{
